@@ -121,6 +121,7 @@ def exA : TxAbs where
   seqs := [0xffffffff]
   nOuts := 2
   lockTime := 0
+  version := 1
   fee := 1000
   vsize := 100
   ssize := 100
@@ -129,7 +130,6 @@ def exA : TxAbs where
   coinbase := false
   valuesOk := true
   std := true
-  seqLockOk := true
   sigOk := true
   highPrio := false
   scriptsOk := true
